@@ -25,6 +25,9 @@ testament-always-compared: BundleInfo._validate_revision (0.8/0.9 bundles) evalu
 testament hash with the recorded one on every normal path, and a mismatch raises TestamentMismatch.
 install-order-presence: the v4 writer emits inventory records before revision records; consequently the installer's
 inventory code asks the inventories store — never the revision store — whether a parent is present.
+Third round: delta-basis-is-delta-source — in RevisionInstaller._install_inventory_records the inventory the delta is made against is looked
+up under the very expression passed as basis to add_inventory_by_delta; preview-verified-when-present — MergeDirective2._maybe_verify
+answers "inapplicable" only under `self.patch is None`.
 Does not decide: testament equality of the installed revisions; detection of a tampered patch (hash checks are value
 computations).
 """
@@ -215,8 +218,38 @@ def run(ctx):
             ctx.check("install-order-presence", f"{V4}:{qn}", not badq, f"{qn} does not ask the revision store whether a parent is present", construct="; ".join(badq), message=f"{qn} decides whether a parent inventory is present by asking for the *revision* ({badq}): a v4 bundle installs all its inventories before any revision, so a parent carried by the same bundle is taken for a ghost, dropped from the multi-parent diff's parents, and a valid bundle fails to install (or reconstructs another text) as soon as the parent text is not in the cache")
         f4 = repo.func(V4, "RevisionInstaller._get_parent_inventory_texts")
         ctx.check("install-order-presence", f"{V4}:RevisionInstaller._get_parent_inventory_texts", any(call_attr(c) == "get_parent_map" and (call_recv(c) or "").endswith(".inventories") for c in calls_in(f4)), "presence of parent inventories is asked of the inventories store")
+    # ---- the delta handed to add_inventory_by_delta was made against the inventory of the basis it names ---------------
+    fiv = repo.func(V4, "RevisionInstaller._install_inventory_records")
+    wiv = f"{V4}:RevisionInstaller._install_inventory_records"
+    adds = [c for c in calls_in(fiv) if call_attr(c) == "add_inventory_by_delta" and len(c.args) >= 2]
+    ctx.require(len(adds) >= 1, f"{wiv}: add_inventory_by_delta(basis, delta, …) not found")
+    for c in adds:
+        basis, dname = norm(c.args[0]), norm(c.args[1])
+        dsrc = [c.args[1]] if isinstance(c.args[1], ast.Call) else [a.value for a in walk_own(fiv) if isinstance(a, ast.Assign) and any(norm(t) == dname for t in a.targets)]
+        pinv = {norm(v.args[1]) for v in dsrc if isinstance(v, ast.Call) and len(v.args) == 2 and "delta" in norm(v.func).lower()}
+        okb = len(pinv) == 1 and len(dsrc) == 1
+        detail = ""
+        if okb:
+            p_ = pinv.pop()
+            psrc = [a.value for a in walk_own(fiv) if isinstance(a, ast.Assign) and any(norm(t) == p_ for t in a.targets)]
+            bad_ = [norm(v) for v in psrc if not (norm(v) == "None" or (isinstance(v, ast.Call) and v.args and norm(v.args[0]) == basis))]
+            okb = bool(psrc) and not bad_
+            detail = f"{p_} assigned from {bad_}" if bad_ else ""
+        ctx.check("delta-basis-is-delta-source", wiv, okb, f"the delta passed with basis `{basis}` is made against an inventory looked up under `{basis}`", construct=detail or norm(c)[:100], message=f"_install_inventory_records applies a delta on top of `{basis}` that was computed against another inventory ({detail}): the installed inventory of a merge silently loses (or gains) the other side's changes — the testament of the installed revision differs from the source, and nothing raises")
+    # ---- a preview patch that is present — empty included — is verified -------------------------------------------------
+    from ..cfg import build_cfg as _bcfg
+
+    fmv = repo.func(MD, "MergeDirective2._maybe_verify")
+    wmv = f"{MD}:MergeDirective2._maybe_verify"
+    gmv = _bcfg(fmv)
+    inapp = [n.id for n in gmv.nodes if n.kind == "stmt" and isinstance(n.ast, ast.Return) and const_value(n.ast.value, None) == "inapplicable"]
+    ctx.require(bool(inapp), f"{wmv}: `return 'inapplicable'` not found")
+    g_present = gmv.assume({"self.patch is not None": True, "self.patch is None": False})
+    ctx.check("preview-verified-when-present", wmv, not (set(inapp) & g_present.reachable_from_entry()) and any(call_attr(c) == "_verify_patch" for c in calls_in(fmv)), "'inapplicable' is answered only when self.patch is None; any patch that is present, the empty one included, goes through _verify_patch", message="_maybe_verify answers 'inapplicable' for a patch that is present but empty (a truthiness test instead of `is not None`): a directive whose preview was blanked out is no longer reported as tampered ('failed'), `brz merge` gives no warning while the bundle still carries the change")
 
 MUTANTS = [
+    Mutant("empty preview patch skips verification", MD, "        if self.patch is not None:\n            if self._verify_patch(repository):", "        if self.patch:\n            if self._verify_patch(repository):", expect="preview-verified-when-present"),
+    Mutant("delta made against any cached parent", V4, "                    parent_inv = inventory_cache.get(parent_ids[0], None)\n", "                    parent_inv = inventory_cache.get(parent_ids[-1], None)\n", expect="delta-basis-is-delta-source"),
     Mutant("0.9 bundle without a recorded hash is accepted", "breezy/bzr/bundle/bundle_data.py", "        if sha1 != rev_info.sha1:\n            raise TestamentMismatch(rev.revision_id, rev_info.sha1, sha1)\n", "        if rev_info.sha1 is None:\n            pass\n        elif sha1 != rev_info.sha1:\n            raise TestamentMismatch(rev.revision_id, rev_info.sha1, sha1)\n", expect="testament-always-compared"),
     Mutant("parent inventories classified by revision presence", V4, "            present_parent_map = self._repository.inventories.get_parent_map(\n                parent_keys\n            )\n", "            present_parent_map = self._repository.inventories.get_parent_map(\n                parent_keys\n            )\n            present_parent_map = {k: v for k, v in present_parent_map.items() if self._repository.has_revision(k[-1])}\n", expect="install-order-presence"),
     Mutant("verification ignores runs of blanks", MD, "        # Strip trailing whitespace\n        calculated_patch = re.sub(b\" *\\n\", b\"\\n\", calculated_patch)\n        stored_patch = re.sub(b\" *\\n\", b\"\\n\", stored_patch)\n", "        # Strip trailing whitespace\n        calculated_patch = re.sub(b\"[ \\t]+\", b\" \", re.sub(b\" *\\n\", b\"\\n\", calculated_patch))\n        stored_patch = re.sub(b\"[ \\t]+\", b\" \", re.sub(b\" *\\n\", b\"\\n\", stored_patch))\n", expect="verify-normalises-line-ends-only"),
